@@ -34,18 +34,16 @@ where
         let cur_stored_len = self.stored_len().min(self.real_stored_len());
         let agree_at = change.truncated_start.min(cur_stored_len);
         let carried = change.truncated_start - agree_at;
+        // A damaged record can ask for more than the buffer holds: refuse before allocating.
+        let carried_values = self
+            .base
+            .pushed()
+            .get(..carried)
+            .ok_or(crate::Error::ExpectVecToHaveIndex)?;
         let mut buf = Vec::with_capacity(
             carried + change.truncated_values.len() + change.prev_pushed.len(),
         );
-        if carried > 0 {
-            let current = self.base.pushed();
-            let from = agree_at - self.stored_len().min(agree_at);
-            buf.extend_from_slice(
-                current
-                    .get(from..from + carried)
-                    .ok_or(crate::Error::ExpectVecToHaveIndex)?,
-            );
-        }
+        buf.extend_from_slice(carried_values);
         buf.extend(change.truncated_values);
         buf.extend(change.prev_pushed);
         self.base.apply_rollback(change.prev_stamp, agree_at, buf);
